@@ -237,6 +237,46 @@ func run(c *mon.Ctx) {
 				break
 			}
 		}
+		// a second call on the same input with another request: the first result stays what it was,
+		// and the second result is right on its own
+		if len(streamPids) >= 2 && r.Chance(3) {
+			var outSnap []packet.Packet
+			for _, o := range out {
+				outSnap = append(outSnap, *o)
+			}
+			keep2 := map[int]bool{streamPids[r.Intn(len(streamPids))]: true}
+			var req2 []int
+			for pid := range keep2 {
+				req2 = append(req2, pid)
+			}
+			out2, err2 := psi.FilterPMTPacketsToPids(pkts, req2)
+			c.Count("second_call_on_same_input")
+			for k := range out {
+				if *out[k] != outSnap[k] {
+					c.Fail("filter:earlier-result-changed", "packets returned by an earlier call changed when the same input was filtered again", w(""))
+					return
+				}
+			}
+			for k := range pkts {
+				if *pkts[k] != snap[k] {
+					c.Fail("filter:input-modified", fmt.Sprintf("the second FilterPMTPacketsToPids call modified input packet %d", k), w(""))
+					return
+				}
+			}
+			want2 := append(ref.PointerPrefix(ptr), p.SectionWith(func(pid int) bool { return keep2[pid] })...)
+			var got2 []byte
+			for k, o := range out2 {
+				hl := 4
+				if snap[k][3]&0x20 != 0 {
+					hl = 5 + int(snap[k][4])
+				}
+				got2 = append(got2, o[hl:]...)
+			}
+			if err2 != nil || len(got2) < len(want2) || !bytes.Equal(got2[:len(want2)], want2) {
+				c.Fail("filter:second-call-differs", fmt.Sprintf("a second call on the same input (request %v after %v) does not yield the PMT of the requested stream (err %v)", req2, reqSnap, err2), w(""))
+				return
+			}
+		}
 		if keepN < len(streamPids) || len(missing) > 0 {
 			kc := "some"
 			if keepN == len(streamPids) {
